@@ -60,6 +60,11 @@ def units(tier):
     return us
 
 
+def space_size(tier):
+    """independently computed number of edges: every one of the n rotation states x 2 operators x (4n+3) values of k, per graph"""
+    return sum(n * 2 * (4 * n + 3) for (n, s, nsl) in units(tier))
+
+
 def initial(n, s, nsl):
     tab = table(n)[s::nsl]
     feats = [(typ, parts, "f{}".format(i)) for i, (typ, parts) in enumerate(tab)]
